@@ -286,6 +286,21 @@ type Spec[C any] struct {
 	Check       func(c C) Outcome
 	// Extra, if set, is called at the end and its result stored in the stats.
 	Extra func() map[string]any
+	// Inflight: the code under test runs on goroutines of its own, where a panic ends the whole process. The case
+	// being executed is then written to $VERIF_INFLIGHT first, so that the driver can report it as the replay file.
+	Inflight bool
+}
+
+// inflight records the case about to be executed (see Spec.Inflight); done() removes the record.
+func inflight(enabled bool, property, test string, cj []byte) (done func()) {
+	p := os.Getenv("VERIF_INFLIGHT")
+	if !enabled || p == "" {
+		return func() {}
+	}
+	rf := replayFile{Property: property, Test: test, Kind: "crash", Msg: "the process ended (panic on a goroutine of the code under test) while this case was executing", Case: cj}
+	b, _ := json.MarshalIndent(&rf, "", " ")
+	_ = os.WriteFile(p, b, 0o644)
+	return func() { _ = os.Remove(p) }
 }
 
 // Check runs the generated search.
@@ -351,7 +366,9 @@ func Check[C any](t *testing.T, s Spec[C]) {
 			if json.Unmarshal(rf.Case, &c) != nil {
 				continue
 			}
+			done := inflight(s.Inflight, s.Property, t.Name(), rf.Case)
 			o := s.Check(c)
+			done()
 			col.st.Classes["regression-replay"]++
 			if o.V != nil && !knownKinds[o.V.Kind] {
 				col.st.Violations = append(col.st.Violations, violationRec{Kind: o.V.Kind, Msg: o.V.Msg, File: f})
@@ -363,7 +380,9 @@ func Check[C any](t *testing.T, s Spec[C]) {
 	rapid.Check(t, func(rt *rapid.T) {
 		c := s.Gen(rt)
 		cj := caseJSON(c)
+		done := inflight(s.Inflight, s.Property, t.Name(), cj)
 		o := s.Check(c)
+		done()
 		if o.V != nil && knownKinds[o.V.Kind] {
 			col.mu.Lock()
 			if !col.failed {
